@@ -13,7 +13,7 @@ Record obs := O {
   o_st : N; o_body : N; o_hassync : bool; o_cur : N; o_hist : list rev;
   o_fcas : bool; o_fcrc : bool; o_hasvv : bool; o_fcv : bool; o_fcvcas : bool;
   o_hasmou : bool; o_fmou : bool; o_fpcas : bool;
-  o_vfull : N; o_vdoc : N; o_vxattr : N; o_res : N; o_sequp : bool; o_imports : N; o_fired : bool }.
+  o_vfull : N; o_vdoc : N; o_vxattr : N; o_res : N; o_sequp : bool; o_imports : N; o_fired : bool; o_att : bool }.
 
 Inductive case := C (ops : list op) (observed : list obs).
 
@@ -24,7 +24,7 @@ Definition obs_eqb (a b : obs) : bool :=
   Bool.eqb (o_fcv a) (o_fcv b) && Bool.eqb (o_fcvcas a) (o_fcvcas b) && Bool.eqb (o_hasmou a) (o_hasmou b) &&
   Bool.eqb (o_fmou a) (o_fmou b) && Bool.eqb (o_fpcas a) (o_fpcas b) &&
   (o_vfull a =? o_vfull b) && (o_vdoc a =? o_vdoc b) && (o_vxattr a =? o_vxattr b) && (o_res a =? o_res b) &&
-  Bool.eqb (o_sequp a) (o_sequp b) && (o_imports a =? o_imports b) && Bool.eqb (o_fired a) (o_fired b).
+  Bool.eqb (o_sequp a) (o_sequp b) && (o_imports a =? o_imports b) && Bool.eqb (o_fired a) (o_fired b) && Bool.eqb (o_att a) (o_att b).
 
 Definition res_code (r : res) : N :=
   match r with ROk => 0 | RConflict => 1 | RNotFound => 2 | RIgnored => 3 | ROther => 9 end.
@@ -35,7 +35,7 @@ Definition project (lastseq : N) (s : state) (r : res) (imp0 : N) (fired : bool)
   let d := doc s in
   let st := match d_st d with Absent => 0 | Alive => 1 | Tomb => 2 end in
   match d_st d with
-  | Absent => (O 0 0 false 0 [] false false false false false false false false 2 2 3 (res_code r) false (imports s - imp0) fired, lastseq)
+  | Absent => (O 0 0 false 0 [] false false false false false false false false 2 2 3 (res_code r) false (imports s - imp0) fired false, lastseq)
   | _ =>
     let body := if is_alive d then d_body d else 0 in
     let hasvv := match d_vv d with Some _ => true | None => false end in
@@ -45,7 +45,7 @@ Definition project (lastseq : N) (s : state) (r : res) (imp0 : N) (fired : bool)
     let fpcas := match d_mou d, d_vv d with Some m, Some v => m_pcas m =? v_cvcas v | _, _ => false end in
     match d_sync d with
     | None =>
-        (O st body false 0 [] false false hasvv false fcvcas hasmou fmou fpcas 2 2 3 (res_code r) false (imports s - imp0) fired, lastseq)
+        (O st body false 0 [] false false hasvv false fcvcas hasmou fmou fpcas 2 2 3 (res_code r) false (imports s - imp0) fired false, lastseq)
     | Some sy =>
         let fcv := match d_vv d with Some v => v_ver v =? s_cv sy | None => false end in
         (O st body true (cur_gen d) (s_hist sy)
@@ -53,7 +53,7 @@ Definition project (lastseq : N) (s : state) (r : res) (imp0 : N) (fired : bool)
            (b2n (sd_is_sg_write sy (d_cas d) (body_crc ccrc cdel d) (d_vv d)))
            (b2n (doc_is_sg_write ccrc cdel d None))
            (sd_xattr_only cdel sy (d_cas d) (is_tomb d) (d_vv d))
-           (res_code r) (negb (s_seq sy =? lastseq)) (imports s - imp0) fired, s_seq sy)
+           (res_code r) (negb (s_seq sy =? lastseq)) (imports s - imp0) fired (s_att sy), s_seq sy)
     end
   end.
 
